@@ -639,9 +639,10 @@ static void static_part() {
     for (int n = 2; n <= 4; ++n) for (int rule : {0, 2}) {
         for (uint64_t mask = 0; mask < (1ull << fam::noffd(n)); ++mask) {
             if (!vf::take_group()) continue;
-            for_matrix(MatDesc{vf::KS() << "ns" << n << "r" << rule << "m" << mask, fam::nonsym_pattern(n, mask, rule)});
+            // quick: n = 4 with the second value rule runs with saad only
+            for_matrix(MatDesc{vf::KS() << "ns" << n << "r" << rule << "m" << mask, fam::nonsym_pattern(n, mask, rule)}, !(vf::quick() && n == 4 && rule == 2));
         }
-        vf::space(vf::KS() << "static: all nonsymmetric off-diagonal patterns n=" << n << " value rule " << rule << " x 9 x 4 x 2");
+        vf::space(vf::KS() << "static: all nonsymmetric off-diagonal patterns n=" << n << " value rule " << rule << " x 9 x 4 x " << (vf::quick() && n == 4 && rule == 2 ? "saad" : "{saad, rmerge}"));
     }
     for (uint64_t mask = 0; mask < (1ull << fam::npairs(5)); ++mask) {
         if (!vf::take_group()) continue;
